@@ -130,12 +130,18 @@ Section Write.
     match g with
     | G i sy c m fs kids =>
         if clip then
-          (* only the paths directly inside the group are written, carrying the group's clip-path *)
+          (* write_clip_path_children(g, g.transform, g.clip_path id): the same loop as write_clipkids below, with the group's own clip id *)
           (fix go (l : list node) : list xout :=
              match l with
              | [] => []
              | NPath pi _ fl st :: r => write_path pi fl st (option_map c_id c) :: go r
-             | _ :: r => go r
+             | NGroup inner :: r =>
+                 (match option_map c_id c, option_map c_id (g_clip inner) with
+                  | Some _, Some _ => []
+                  | cid, ic => write_clipkids inner (match cid with Some x => Some x | None => ic end)
+                  end) ++ go r
+             | NText _ flat _ :: r => write_clipkids flat (option_map c_id c) ++ go r
+             | NImage _ _ :: r => go r
              end) kids
         else
           [XE Tg (id_attr i ++ opt_url K_CLIP c_id c ++ opt_url K_MASK m_id m ++
@@ -144,6 +150,25 @@ Section Write.
                   (if sy then [AStyle] else []))
               ((fix go (l : list node) : list xout :=
                   match l with [] => [] | k :: r => write_node k false ++ go r end) kids)]
+    end
+  (* write_clip_path_children(g, ts, clip_id) (since 5d8487d): direct paths carry `clip_id`; a child group is entered (transforms are
+     concatenated - not modelled) unless BOTH levels have a clip-path (`continue`), with `clip_id.or(inner clip id)`; a child text is
+     written as its flattened paths, also under preserve_text; images are skipped *)
+  with write_clipkids (g : group) (cid : option N) {struct g} : list xout :=
+    match g with
+    | G _ _ _ _ _ kids =>
+        (fix go (l : list node) : list xout :=
+           match l with
+           | [] => []
+           | NPath pi _ fl st :: r => write_path pi fl st cid :: go r
+           | NGroup inner :: r =>
+               (match cid, option_map c_id (g_clip inner) with
+                | Some _, Some _ => []
+                | _, ic => write_clipkids inner (match cid with Some x => Some x | None => ic end)
+                end) ++ go r
+           | NText _ flat _ :: r => write_clipkids flat cid ++ go r
+           | NImage _ _ :: r => go r
+           end) kids
     end.
 
   (* write_elements(parent, is_clip_path) *)
